@@ -64,7 +64,8 @@ deriving Repr, DecidableEq
 inductive SOut
   | appended (pid off : Nat)
   | records (rs : List (Nat × Nat))            -- (partition, offset) of every returned record
-  | total (n : Nat)                            -- `total_records` after a retention sweep
+  | total (n : Nat) (kept : List (List Nat))   -- after a retention sweep: `total_records` and, per partition (index =
+                                              --   partition id), the offsets of `partitions[p].records`
   | unit
   | rebalanced (gen : Nat) (asg : Assignment) (mine : List Nat)
   | committed (cs : List (Nat × Nat))          -- (partition, committed offset) for c's assigned partitions
@@ -103,6 +104,9 @@ def Stream.retention (cfg : SCfg) (s : Stream) (t : Nat) : Stream :=
 
 def Stream.total (s : Stream) : Nat := (s.parts.map List.length).sum
 
+/-- what an observer sees in `log.partitions[p].records`: the retained offsets of every partition -/
+def Stream.kept (s : Stream) : List (List Nat) := s.parts.map (fun l => l.map (·.off))
+
 def assignWith (st : Strategy) (prev : Assignment) (parts cons : List Nat) : Assignment :=
   match st with
   | .range => rangeAssign parts cons
@@ -140,7 +144,7 @@ def Stream.pollGo (cfg : SCfg) (s : Stream) (c max : Nat) : List Nat → List (N
 def Stream.step (cfg : SCfg) (s : Stream) (t : Nat) : SAct → Stream × SOut
   | .append key h => s.append cfg t key h
   | .read p off max => (s, .records (s.readPart cfg p off max))
-  | .retention => (s.retention cfg t, .total (s.retention cfg t).total)
+  | .retention => (s.retention cfg t, .total (s.retention cfg t).total (s.retention cfg t).kept)
   | .joinA c => ({ s with members := insertNew s.members c }, .unit)
   | .joinB c => (s.rebalance cfg, .rebalanced (s.rebalance cfg).gen (s.rebalance cfg).asg ((s.rebalance cfg).mine c))
   | .leaveA c => ({ s with members := s.members.erase c, asg := s.asg.filter (fun e => e.1 != c) }, .unit)
